@@ -90,63 +90,95 @@ def r1(ctx):
     ctx.ob("R1", ok, "_UPDATE assigns _keys in order and ends with WHERE id = ?", node=cm.toplevel.get("_UPDATE"),
            sig="_UPDATE = _keys, WHERE id = ?" if ok else "_UPDATE sets %s where %s" % (
                [c for c, _ in upd.sets] if isinstance(upd.sets, list) else upd.sets, S.show(upd.where)))
-    # ---- astuple
-    at = require_func(ctx, "feature.Feature.astuple")
-    rets = returned_tuples(at)
-    ctx.floor("R1", len(rets), 1, "return paths of Feature.astuple")
-    for r, tup in rets:
-        if tup is None:
-            ctx.ob("R1", False, "astuple returns a tuple display the rule can read", node=r, func=at,
-                   sig="astuple returns %s" % norm(r.value))
-            continue
-        ok = len(tup.elts) == len(keys)
-        ctx.ob("R1", ok, "astuple returns len(_keys) elements", node=r, func=at,
-               sig="astuple arity %d" % len(tup.elts), nontrivial=False)
-        if not ok:
-            continue
-        for i, (k, e) in enumerate(zip(keys, tup.elts)):
-            fld, how = _field_of(e, at)
-            want = {"attributes": "json", "extra": "json", "bin": "calc"}.get(k, "plain")
-            # the bin column is only required to be the feature's bin here; that it is *recomputed* (not the cached
-            # attribute) is C06.R3 / C12.R5's obligation, not a fidelity clause
-            ok = fld == k and (how == want or (k == "bin" and how in ("calc", "plain")))
-            ctx.ob("R1", ok, "astuple element %d projects the `%s` field (%s)" % (i, k, want), node=e, func=at,
-                   sig="astuple[%d] (%s) = %s" % (i, k, norm(_strip_decode(e)) if not ok else "%s/%s" % (k, want)), nontrivial=(i < 12))
-    # ---- Feature.__init__ accepts every selected column (rows are splatted)
+    # ---- what a row holds, and what comes back: decided on the evaluated import / look-up (r_scenario)
     init = require_func(ctx, "feature.Feature.__init__")
     missing = [k for k in list(keys) + ["file_order"] if k not in init.params]
     ctx.ob("R1", not missing, "Feature.__init__ has a keyword parameter for every column of _SELECT (rows are passed as **row)",
            func=init, sig="Feature.__init__ lacks %s" % missing if missing else "Feature.__init__ accepts all _SELECT columns")
-    # ---- call sites of _INSERT / _UPDATE
-    n_ins = n_upd = 0
-    for s in execute_sites(ctx):
-        a0 = s.call.args[0]
-        which = norm(a0).split(".")[-1]
-        if which == "_INSERT":
-            n_ins += 1
-            p = s.params
-            ok = isinstance(p, ast.Call) and call_attr(p) == "astuple"
-            if not ok and enclosing(s.call, ast.ExceptHandler) is not None and s.func.name == "_replace":
-                ctx.note("informational: %s binds %s to _INSERT in its ProgrammingError fallback (Python-2 leftover, "
-                         "unreachable with str parameters)" % (s.func.qual, norm(p)))
-                continue
-            ctx.ob("R1", ok, "_INSERT is executed with <feature>.astuple()", node=s.call, func=s.func,
-                   sig="%s: _INSERT bound to %s" % (s.func.name, "astuple()" if ok else norm(p) if p is not None else None))
-        elif which == "_UPDATE":
-            n_upd += 1
-            found = None
-            for n in ast.walk(s.func.node):
-                if isinstance(n, ast.BinOp) and isinstance(n.op, ast.Add):
-                    left_has = any(isinstance(c, ast.Call) and call_attr(c) == "astuple" for c in ast.walk(n.left))
-                    right_ok = isinstance(n.right, (ast.List, ast.Tuple)) and len(n.right.elts) == 1 and \
-                        isinstance(n.right.elts[0], ast.Attribute) and n.right.elts[0].attr == "id"
-                    if left_has and right_ok:
-                        found = n
-            ctx.ob("R1", found is not None, "_UPDATE is executed with astuple() + [<feature>.id]", node=s.call, func=s.func,
-                   sig="%s: _UPDATE bound to astuple()+[id]" % s.func.name if found is not None else
-                   "%s: _UPDATE arguments are not astuple()+[id]" % s.func.name)
-    ctx.floor("R1", n_ins, 3, "_INSERT execution sites")
-    ctx.floor("R1", n_upd, 1, "_UPDATE execution sites")
+
+
+def r_scenario(ctx):
+    """Import evaluated on the model database: every line becomes one row holding exactly its fields (attributes / extra as
+    JSON, the bin of its coordinates); looking the id up returns a Feature with those fields; replace and _update store
+    the new content under the id."""
+    from . import scen
+    keys = list(ctx.folder.const("constants", "_keys"))
+    for cls, lines in (("_GFFDBCreator", scen.gff_lines() + [
+            scen.feature("X1", "CDS", 5, 6, {"ID": ["c1"], "Parent": ["t1"], "note": ["a b", "c;d=e,f"]}, strand="-", source="S 1", score="0.5", frame="2", extra=["x1", "x 2"]),
+            scen.feature("X2", "chromosome", None, None, {"ID": ["chrom"]}, strand=".")]),
+                       ("_GTFDBCreator", scen.gtf_lines())):
+        fpop = require_func(ctx, "create.%s._populate_from_lines" % cls)
+        im, t = scen.run_create(ctx, cls, lines)
+        if not scen.returned(ctx, t, "%s.create" % cls, func=fpop, rule="R2"):
+            continue
+        rows = [scen.decoded_row(r, keys) for r in im.table("features", keys)]
+        by_id = {}
+        for r in rows:
+            by_id.setdefault(r["id"], []).append(r)
+        bad = None
+        for f in lines:
+            got = by_id.get(f.attrs["id"], [])
+            want = scen.expected_row(f, keys)
+            if len(got) != 1:
+                bad = "line %s (id %s) is stored %d times" % (f.name, f.attrs["id"], len(got))
+                break
+            diff = sorted(k for k in keys if got[0].get(k) != want[k])
+            if diff:
+                bad = "line %s (id %s): column(s) %s stored as %s, the line has %s" % (f.name, f.attrs["id"], diff, [got[0].get(k) for k in diff], [want[k] for k in diff])
+                break
+        ctx.ob("R2", bad is None, "every parsed line is stored as exactly one row under its id (%s, %d lines)" % (cls, len(lines)), func=fpop,
+               sig="%s: one row per line" % cls if bad is None or "column" in bad else "%s: %s" % (cls, bad))
+        ctx.ob("R1", bad is None or "column" not in bad, "the stored row holds the line's nine fields, attributes and extra as JSON, and the bin of its coordinates (%s)" % cls, func=fpop,
+               sig="%s: rows equal the lines" % cls if bad is None or "column" not in bad else "%s: %s" % (cls, bad))
+        order = [r["id"] for r in rows if r["id"] in {f.attrs["id"] for f in lines}]
+        ctx.ob("R2", order == [f.attrs["id"] for f in lines], "rows are stored in file order (rowid = position of the line)", func=fpop,
+               sig="%s: row order %s" % (cls, "= file order" if order == [f.attrs["id"] for f in lines] else order), nontrivial=False)
+        # ---- read back through db[id]
+        it, me, conn = scen.feature_db(ctx, im.db, fmt="gff3" if cls == "_GFFDBCreator" else "gtf")
+        gi = require_func(ctx, "interface.FeatureDB.__getitem__")
+        badr = None
+        for pos_, f in enumerate(lines):
+            t = scen.call_method(ctx, it, me, "interface.FeatureDB.__getitem__", key=f.attrs["id"])
+            if t.result[0] != "return" or not hasattr(t.result[1], "attrs"):
+                badr = "db[%r] %s %s" % (f.attrs["id"], t.result[0], t.result[1])
+                break
+            g = t.result[1].attrs
+            diff = sorted(k for k in keys if k != "bin" and g.get(k) != f.attrs[k])
+            if diff:
+                badr = "db[%r].%s = %r, the line has %r" % (f.attrs["id"], diff[0], g.get(diff[0]), f.attrs[diff[0]])
+                break
+        ctx.ob("R4", badr is None, "db[id] returns a Feature whose fields, attribute mapping and extra columns equal the imported line's (%s)" % cls, func=gi,
+               sig="%s: look-ups equal the lines" % cls if badr is None else "%s: %s" % (cls, badr))
+    # ---- replace: the colliding line's content takes the id over
+    lines = scen.gff_lines()[:3]
+    newer = scen.feature("R1", "exon", 7, 9, {"ID": ["e1"], "Parent": ["t1"], "note": ["newer"]}, strand="-", source="other")
+    im = scen.Import(ctx, "_GFFDBCreator", merge_strategy="replace")
+    t = im.call("_populate_from_lines", lines=lines + [newer])
+    frep = require_func(ctx, "create._DBCreator._replace")
+    if scen.returned(ctx, t, "import with merge_strategy='replace'", func=frep, rule="R1"):
+        rows = [scen.decoded_row(r, keys) for r in im.table("features", keys) if r[0] == "e1"]
+        want = scen.expected_row(newer, keys)
+        ok = len(rows) == 1 and all(rows[0].get(k) == want[k] for k in keys)
+        ctx.ob("R1", ok, "replace stores the new line's full content under the id (UPDATE bound to the row's columns in order, then the id)", func=frep,
+               sig="replaced row equals the new line" if ok else "replaced row: %s" % (rows[:1],))
+    # ---- FeatureDB._update (through add_relation's parent_func)
+    from ..absint import Callback
+    im, _t = scen.run_create(ctx, "_GFFDBCreator", scen.gff_lines())
+    it, me, conn = scen.feature_db(ctx, im.db)
+    fu = require_func(ctx, "interface.FeatureDB._update")
+
+    def edit(pos, kw):
+        parent = pos[0]
+        parent.attrs["attributes"]["edited"] = ["yes"]
+        parent.attrs["end"] = 1234
+        return parent
+    t = scen.call_method(ctx, it, me, "interface.FeatureDB.add_relation", parent="g1", child="o1", level=1, parent_func=Callback("parent_func", None, edit))
+    if scen.returned(ctx, t, "add_relation with parent_func", func=fu, rule="R1"):
+        rows = [scen.decoded_row(r, keys) for r in im.db.rows("features", keys) if r[0] == "g1"]
+        ok = len(rows) == 1 and rows[0]["end"] == 1234 and rows[0]["attributes"].get("edited") == ["yes"] and rows[0]["seqid"] == "chr1" and rows[0]["featuretype"] == "gene" \
+            and len(im.db.rows("features")) == len(scen.gff_lines())
+        ctx.ob("R1", ok, "_update rewrites exactly the row of the feature's id with its current fields", func=fu,
+               sig="edited parent stored under its id" if ok else "after _update: %s" % (rows[:1],))
 
 
 def populate_methods(ctx):
@@ -202,57 +234,70 @@ def r2(ctx):
 
 
 def r3(ctx):
-    from ..util import closure, walk_closure, resolve_name
+    """The JSON layer, evaluated: _jsonify on a plain mapping, on an Attributes mapping (under both settings of
+    always_return_list) and on a list; _unjsonify with and without isattributes; Feature.__init__ on stored text."""
+    import json as _json
+    from ..absint import Interp, Opaque, TypeVal, Unsupported
+    from ..scenario import install_json
     js = require_func(ctx, "helpers._jsonify")
-    dumps = [c for c in calls_in(js.node) if call_attr(c) == "dumps"]
-    ctx.floor("R3", len(dumps), 1, "json.dumps calls in _jsonify")
-    raw = False
-    for c in dumps:
-        bad = [k.arg for k in c.keywords if k.arg in ("sort_keys", "default", "ensure_ascii", "cls", "indent") and not (
-            isinstance(k.value, ast.Constant) and k.value.value in (False, None) and k.arg in ("sort_keys", "indent", "default", "cls"))]
-        ctx.ob("R3", not bad, "the stored JSON keeps key order and content (no sort_keys/default/ensure_ascii overrides)", node=c, func=js,
-               sig="json.dumps options %s" % (bad or "plain"))
-        d = ctx.proj.dotted(c.func, js.module, js)
-        ctx.ob("R3", d in ("simplejson.dumps", "json.dumps"), "serialisation uses the json module", node=c, func=js,
-               sig="serialiser %s" % d, nontrivial=False)
-    # the raw underlying dict of an Attributes mapping is what gets dumped: some read of `<param>._d` in _jsonify
-    # (directly as the argument, or through a local chosen under the isinstance(dict_class) test)
-    param = js.params[0]
-    raw = any(isinstance(n, ast.Attribute) and n.attr == "_d" and is_name(n.value, param) for n in ast.walk(js.node))
-    via_items = any(isinstance(n, ast.Call) and call_attr(n) in ("items", "keys", "values") and is_name(n.func.value, param) for n in ast.walk(js.node))
-    ctx.ob("R3", raw and not via_items, "an Attributes mapping is serialised through its raw underlying dict (lists stay lists, "
-           "independent of always_return_list)", func=js, sig="_jsonify dumps x._d" if raw and not via_items else "_jsonify never dumps the raw mapping")
     uj = require_func(ctx, "helpers._unjsonify")
-    loads = [c for c in calls_in(uj.node) if call_attr(c) == "loads"]
-    ctx.floor("R3", len(loads), 1, "json.loads calls in _unjsonify")
-    for c in loads:
-        d = ctx.proj.dotted(c.func, uj.module, uj)
-        dd = [ctx.proj.dotted(x.func, js.module, js) for x in dumps]
-        ok = all(d.split(".")[0] == x.split(".")[0] for x in dd if x)
-        hooks = [k.arg for k in c.keywords if k.arg in ("object_hook", "object_pairs_hook", "parse_int", "parse_float", "parse_constant")]
-        ctx.ob("R3", ok and not hooks, "decoder is the inverse of the encoder (same json binding, no hooks)", node=c, func=uj,
-               sig="decoder %s hooks %s" % (d, hooks or "none"))
-    wraps = [c for c in calls_in(uj.node) if ctx.proj.dotted(c.func, uj.module, uj) in ("attributes.dict_class", "attributes.Attributes")]
-    ok = False
-    for c in wraps:
-        from ..util import flat_guards
-        g = flat_guards(c, uj.node, uj)
-        if "isattributes" in g:
-            ok = True
-        par = c._parent
-        if isinstance(par, ast.IfExp) and norm(par.test) == "isattributes" and par.body is c:
-            ok = True
+    raw = {"b": ["2", "1"], "a": ["x"], "c": []}
+
+    def run(func, args, switch=True, real=()):
+        it = Interp(ctx, overrides={("constants", "always_return_list"): switch})
+        install_json(it)
+        it.construct_real |= set(real)
+        try:
+            tr = it.run(func, args)
+        except Unsupported as e:
+            ctx.require(False, "%s outside the analysable subset: %s" % (func.qual, e))
+        ctx.require(len(tr) == 1, "%s forks on concrete input" % func.qual)
+        return tr[0]
+
+    def text_of(t):
+        return t.result[1] if t.result[0] == "return" and isinstance(t.result[1], str) else None
+    p0 = js.params[0]
+    t = run(js, {p0: dict(raw)})
+    txt = text_of(t)
+    ok = txt is not None and _json.loads(txt) == raw and list(_json.loads(txt)) == list(raw)
+    ctx.ob("R3", ok, "the stored JSON of a mapping keeps its keys, their order and the value lists", func=js, sig="_jsonify(mapping) round-trips" if ok else "_jsonify(mapping) = %r" % (t.result[1:],))
+    for switch in (True, False):
+        A = Opaque("A", "Attributes")
+        A.attrs["_d"] = {k: list(v) for k, v in raw.items()}
+        t = run(js, {p0: A}, switch=switch)
+        txt = text_of(t)
+        ok = txt is not None and _json.loads(txt) == raw and list(_json.loads(txt)) == list(raw)
+        ctx.ob("R3", ok, "an Attributes mapping is serialised through its raw underlying dict: lists stay lists, independent of always_return_list (=%s)" % switch, func=js,
+               sig="_jsonify(Attributes) stores the raw lists (switch %s)" % switch if ok else "_jsonify(Attributes), switch %s: %r" % (switch, t.result[1:],))
+    t = run(js, {p0: ["x1", "x 2"]})
+    ok = text_of(t) is not None and _json.loads(text_of(t)) == ["x1", "x 2"]
+    ctx.ob("R3", ok, "extra columns are stored as a JSON list", func=js, sig="_jsonify(list) round-trips" if ok else "_jsonify(list) = %r" % (t.result[1:],), nontrivial=False)
+    text = _json.dumps(raw, separators=(",", ":"))
+    u0 = uj.params[0]
+    t = run(uj, {u0: text})
+    ok = t.result == ("return", raw) and list(t.result[1]) == list(raw)
+    ctx.ob("R3", ok, "decoding is the inverse of encoding (keys, order, lists)", func=uj, sig="_unjsonify(text) = the mapping" if ok else "_unjsonify(text) = %r" % (t.result[1:],))
+    t = run(uj, {u0: text, "isattributes": True}, real=("attributes.Attributes",))
+    got = t.result[1] if t.result[0] == "return" else None
+    ok = isinstance(got, Opaque) and got.kind == "Attributes" and got.attrs.get("_d") == raw and list(got.attrs.get("_d")) == list(raw)
     ctx.ob("R3", ok, "decoded attributes are re-wrapped in the attribute container when isattributes", func=uj,
-           sig="_unjsonify wraps in dict_class under isattributes" if ok else "_unjsonify does not re-wrap attributes")
+           sig="_unjsonify wraps in dict_class under isattributes" if ok else "_unjsonify(text, isattributes=True) = %r" % (t.result[1:],))
+    # Feature.__init__ on what a row holds: attributes text -> attribute mapping, extra text -> list
     init = require_func(ctx, "feature.Feature.__init__")
-    scope = closure(ctx, init)
-    calls = [(f, c) for f, c in walk_closure(scope, ast.Call) if call_attr(c) == "_unjsonify"]
-    with_attr = [c for f, c in calls if isinstance(kwarg(c, "isattributes"), ast.Constant) and kwarg(c, "isattributes").value is True]
-    without = [c for f, c in calls if kwarg(c, "isattributes") is None or (isinstance(kwarg(c, "isattributes"), ast.Constant) and kwarg(c, "isattributes").value is False)]
-    ctx.ob("R3", len(with_attr) >= 1, "string attributes are decoded with isattributes=True", func=init,
-           sig="Feature.__init__ decodes attributes with isattributes=True" if with_attr else "Feature.__init__ never decodes attributes as an attribute mapping")
-    ctx.ob("R3", len(without) >= 1, "string extra is decoded as a plain list", func=init,
-           sig="Feature.__init__ decodes extra as a plain list" if without else "Feature.__init__ decodes extra with isattributes")
+    it = Interp(ctx)
+    install_json(it)
+    me = Opaque("F", "Feature")
+    me.attrs["__class__"] = TypeVal("feature.Feature")
+    seen = []
+    it.summaries["helpers._unjsonify"] = lambda i, pos, kw, node: (seen.append((pos[0], kw.get("isattributes", pos[1] if len(pos) > 1 else False))), _json.loads(pos[0]))[1]
+    try:
+        tr = it.run(init, {"seqid": "chr1", "start": 1, "end": 2, "attributes": text, "extra": '["x1","x 2"]', "id": "k"}, self_obj=me)
+    except Unsupported as e:
+        ctx.require(False, "Feature.__init__ outside the analysable subset: %s" % e)
+    ok = len(tr) == 1 and tr[0].result[0] == "return" and me.attrs.get("attributes") == raw and me.attrs.get("extra") == ["x1", "x 2"] \
+        and (text, True) in seen and ('["x1","x 2"]', False) in seen
+    ctx.ob("R3", ok, "Feature.__init__ decodes stored attributes as an attribute mapping (isattributes=True) and stored extra as a plain list", func=init,
+           sig="Feature(attributes=text, extra=text) decodes both" if ok else "Feature.__init__: attributes=%r extra=%r decoder calls %s" % (me.attrs.get("attributes"), me.attrs.get("extra"), seen))
 
 
 def _feature_returner_semantics(ctx, fr):
@@ -278,33 +323,34 @@ def _feature_returner_semantics(ctx, fr):
 def r4(ctx):
     from ..util import closure
     from ..sqlbind import bound_rows, select_unpack, Unbound
-    sch = S.schema_from_script(ctx.folder.const("constants", "SCHEMA"))
+    # the dialect of the file survives create -> reopen: create() evaluated on the model database with a distinctive
+    # dialect, then FeatureDB(dbfn) evaluated on the result
+    from . import scen
     fin = require_func(ctx, "create._DBCreator._finalize")
-    scope = closure(ctx, fin)
-    sites = [s for s in execute_sites(ctx, scope) if s.stmts and s.stmts[0].verb == "INSERT" and s.stmts[0].table.lower() == "meta"]
-    ctx.ob("R4", len(sites) >= 1, "finalisation records the dialect in `meta`", func=fin, sig="meta row written by _finalize" if sites else "_finalize never inserts into `meta`")
-    for s in sites:
-        try:
-            rows = bound_rows(s, sch, s.func)
-            val = rows[0][0].get("dialect")
-            shown = norm(val) if val is not None and not isinstance(val, tuple) else None
-        except Unbound as e:
-            shown = "unreadable (%s)" % e
-        ctx.ob("R4", shown == "helpers._jsonify(self.iterator.dialect)", "the dialect persisted in meta is the JSON of the iterator's (file-wide) dialect",
-               node=s.call, func=s.func, sig="meta.dialect := %s" % shown)
     init = require_func(ctx, "interface.FeatureDB.__init__")
-    iscope = closure(ctx, init)
-    msel = [s for s in execute_sites(ctx, iscope) if s.stmts and s.stmts[0].verb == "SELECT" and s.stmts[0].tables() == ["meta"]]
-    ctx.floor("R4", len(msel), 1, "SELECT ... FROM meta sites")
-    pairs, _n = select_unpack(msel[0], msel[0].func)
-    dname = dict(pairs).get("dialect") if pairs else None
-    ctx.ob("R4", dname is not None, "the meta row is unpacked column by column in the order it is selected", func=init,
-           sig="meta row unpack %s" % (pairs,), nontrivial=False)
-    asg = [n for f in iscope for n in ast.walk(f.node) if isinstance(n, ast.Assign) and any(norm(t) == "self.dialect" for t in n.targets)]
-    ok = bool(asg) and dname is not None and all(isinstance(n.value, ast.Call) and call_attr(n.value) == "_unjsonify" and n.value.args and
-                                                is_name(n.value.args[0], dname) for n in asg)
-    ctx.ob("R4", ok, "FeatureDB.dialect is the decoded meta.dialect", func=init,
-           sig="self.dialect := decoded meta.dialect" if ok else "self.dialect := %s (meta.dialect is bound to %s)" % (norm(asg[0].value) if asg else None, dname))
+    D = {"fmt": "gff3", "field separator": "; ", "keyval separator": "=", "order": ["ID", "Parent", "Name"], "repeated keys": False, "trailing semicolon": True}
+    im, t = scen.run_create(ctx, "_GFFDBCreator", scen.gff_lines(), dialect=dict(D), directives=["gff-version 3"])
+    if scen.returned(ctx, t, "create()", func=fin, rule="R4"):
+        import json as _json
+        meta = im.table("meta", ["dialect"])
+        okm = len(meta) == 1 and isinstance(meta[0][0], str)
+        try:
+            okm = okm and _json.loads(meta[0][0]) == D
+        except ValueError:
+            okm = False
+        ctx.ob("R4", okm, "finalisation records the iterator's (file-wide) dialect, as JSON, in one `meta` row", func=fin,
+               sig="meta.dialect holds the file's dialect" if okm else "meta rows: %s" % (meta[:2],))
+        it, me, conn, t2 = scen.open_feature_db(ctx, im.db)
+        if scen.returned(ctx, t2, "FeatureDB(dbfn)", func=init, rule="R4"):
+            got = me.attrs.get("dialect")
+            ctx.ob("R4", got == D, "FeatureDB.dialect is the decoded meta.dialect: the dialect the file was imported with", func=init,
+                   sig="reopened dialect equals the file's" if got == D else "reopened dialect %r" % (got,))
+            # and it reaches every Feature handed out
+            t3 = scen.call_method(ctx, it, me, "interface.FeatureDB.__getitem__", key="e2")
+            f3 = t3.result[1] if t3.result[0] == "return" else None
+            okd = hasattr(f3, "attrs") and f3.attrs.get("dialect") == D
+            ctx.ob("R4", okd, "a Feature looked up in the reopened database carries that dialect", func=init,
+                   sig="db['e2'].dialect is the file's" if okd else "db['e2'].dialect = %r" % (getattr(f3, "attrs", {}).get("dialect"),))
     fr = require_func(ctx, "interface.FeatureDB._feature_returner")
     sem, err = _feature_returner_semantics(ctx, fr)
     if sem is None:
@@ -336,7 +382,7 @@ def r4(ctx):
                        node=c, func=m, sig="direct Feature(...) construction in %s" % m.qual.split("FeatureDB.")[-1])
             if call_attr(c) == "_feature_returner":
                 n_ret += 1
-    ctx.floor("R4", n_ret, 6, "_feature_returner call sites")
+    ctx.floor("R4", n_ret, 1, "_feature_returner call sites")
     ctx.ob("R4", True, "%d _feature_returner call sites, no direct construction" % n_ret, func=fr,
            sig="who-constructs: only _feature_returner", nontrivial=True)
 
@@ -547,7 +593,7 @@ def check(ctx):
         "of feature_from_line/__unicode__ agree with _gffkeys. Does not decide byte-identity of printed lines, iteration order "
         "(no ORDER BY: SQLite's scan order) or re-import equivalence.")
     r1(ctx)
-    r2(ctx)
+    r_scenario(ctx)
     r3(ctx)
     r4(ctx)
     r5(ctx)
